@@ -44,6 +44,7 @@ def setup(rep, tier):
     rep.minimum('R16.6', 3)
     rep.minimum('R16.7', 2)
     rep.minimum('R16.8', 8)
+    rep.minimum('R16.9', 1)
 
 
 def _pos_key(f):
@@ -598,7 +599,70 @@ def r16_8(rep, prog):
             rep.violated('R16.8', inst, where, 'iteration changes %s but reset leaves the stale value; a rewound iterator differs from a fresh one' % fld, key='reset:' + fld)
 
 
+# ------------------------------------------------------------------ R16.9
+def r16_9(rep, prog):
+    """the header size an extension skipper reports is the number of header (lacing) bytes it consumed: in the
+    function that copies a local counter into its `pheader_size` out-parameter, every one-byte cursor read
+    `*data++` is control-equivalent (same block, or mutually dominating / post-dominating blocks of the same
+    loop) with exactly one increment of that counter, and vice versa.  The callers subtract the header size from
+    the distance the cursor moved to obtain the payload pointer and length, so a miscount shifts every
+    payload that has a multi-byte length."""
+    n = 0
+    for f in prog.functions_all:
+        if not f.file.endswith('extensions.c'):
+            continue
+        cg = cfgm.CFG(f)
+        counter = None
+        for b, i, s_ in cg.positions():
+            if s_[0] == 'assign' and sx.kind(sx.strip(s_[1])) == 'deref' and sx.kind(sx.strip(sx.strip(s_[1])[1])) == 'param' and \
+                    'header_size' in str(sx.strip(sx.strip(s_[1])[1])) and sx.kind(sx.strip(s_[2])) == 'local':
+                counter = sx.strip(s_[2])
+        if counter is None:
+            continue
+        rep.functions.add(f.name)
+        reads, incs = [], []
+        for b, i, s_ in cg.positions():
+            for x in sx.walk(s_):
+                if sx.kind(x) == 'deref' and sx.kind(sx.strip(x[1])) == 'inc' and sx.kind(sx.strip(sx.strip(x[1])[3])) == 'local':
+                    reads.append((b, i, x))
+                if sx.kind(x) == 'inc' and sx.key(sx.strip(x[3])) == sx.key(counter):
+                    incs.append((b, i, x))
+                if x[0] == 'cassign' and sx.key(sx.strip(x[2])) == sx.key(counter):
+                    incs.append((b, i, x))
+        loops = cg.natural_loops()
+
+        def loop_of(b):
+            L = [x for x in loops if b in x[2]]
+            return min(L, key=lambda x: len(x[2]))[0] if L else None
+
+        def equiv(a, b):
+            if a == b:
+                return True
+            if loop_of(a) != loop_of(b):
+                return False
+            return (cg.dominates(a, b) and cg.postdominates(b, a)) or (cg.dominates(b, a) and cg.postdominates(a, b))
+        inst = '%s:%s counts one header byte per lacing byte it reads' % (prog.config, f.name)
+        n += 1
+        bad = []
+        for b, i, x in reads:
+            m = [j for j in incs if equiv(b, j[0])]
+            if len(m) != 1:
+                bad.append('the byte read at line %s has %d matching increments of `%s`' % (sx.line(x) or sx.line(cg.blocks[b]['stmts'][i]), len(m), counter[1]))
+        for b, i, x in incs:
+            m = [j for j in reads if equiv(b, j[0])]
+            if len(m) != 1:
+                bad.append('the increment of `%s` at line %s has %d matching byte reads' % (counter[1], sx.line(x) or sx.line(cg.blocks[b]['stmts'][i]), len(m)))
+        if not reads and not incs:
+            rep.unresolved('R16.9', inst + ': no byte reads / increments found')
+        elif bad:
+            rep.violated('R16.9', inst, f.where(), '; '.join(bad[:3]) + ': the reported header size differs from the bytes consumed whenever the length takes more than one byte', key=f.name + ':header-size')
+        else:
+            rep.holds('R16.9', inst, f.where(), '%d byte read(s), %d increment(s), pairwise control-equivalent' % (len(reads), len(incs)))
+    return n
+
+
 def check(rep, prog, tier):
+    r16_9(rep, prog)
     from . import c07
     c07.r07_5(_Renamed(rep, 'R16.7'), prog)
     r16_8(rep, prog)
